@@ -240,3 +240,201 @@ PROPS["C18"] = {'coq': 'Properties/C18.v',
                'differentially, not verified; the FDL call contract (C15) is an assumption here.',
  'design_ref': 'DESIGN.md section 4, C18',
  'assumptions': ['callbacks arrive in the order of the C15 contract', 'own address 0..125', 'events are collected after every callback']}
+
+PROPS["C01"] = {'claimed': False,
+ 'coq': 'Properties/C01.v',
+ 'domains': ['fdl'],
+ 'nontrivial': ['tx:', 'tag:ht:accept', 'tag:reply:', 'tag:gap:reply', 'tag:gap:no-response', 'tag:check:', 'tag:lt:reply'],
+ 'rule': 'cases = corpus (F1 F2 F3 F12 witnesses, API / parameter edge cases) + generated histories: station alone with responders, environment '
+         'rings of 1..3 masters that admit the station, hand-made token traffic (predecessor / stranger / own / invalid addresses), adversarial '
+         'injections (tokens, status requests / replies, SC, data replies, garbage, truncated and corrupted frames, two telegrams at once) at all '
+         'poll timings incl. periods above Tslot/4, PHY busy answers exact / never / late / random, set_offline / set_online in every state, 0..3 '
+         'scripted applications; non-trivial = polls that transmit, accept a token, deliver a reply / time-out or run a GAP branch',
+ 'trusted_base': ['hand model coq/Model/Fdl.v of src/fdl/active.rs (all of it: states, legality assertions, poll_inner branch for branch), on top of '
+                  "Telegram.v / Phy.v / TokenRing.v / Params.v; tied by differential execution poll by poll on this run's histories (all outputs, "
+                  'public getters and the private state through the verif-hooks fingerprint)',
+                  'gen/tr_fdl.py: transition legality tables, have_token / is_in_ring sets, dispatch, retry table and numeric constants regenerated '
+                  'from active.rs',
+                  'harness PHY / scripted applications / scripted environment of harness/src/fdl.rs; monitors of coq/Model/FdlOracle.v (extracted) '
+                  "run on the implementation's transcript"],
+ 'technique': 'Coq one-step theorems about the Gallina model of the FDL active station + differential correspondence poll by poll + executable '
+              "monitor of the property on the implementation's transcript",
+ 'level_text': 'One-step theorems: no transmission while the PHY is busy or before the predicted end of the own transmission. The monitor checks, on '
+               "the implementation's transcripts, who may transmit, the 33 bit synchronisation pause after every observed bus activity, slot expiry "
+               'before a token retry, and the claim time-out.',
+ 'level_note': 'Trusted: Coq kernel, the regex translators, OCaml extraction + driver, Rust harness. The hand model is validated, not verified, '
+               'against active.rs (differential execution on the explored histories). The theorems proved so far are one-step facts about the model; '
+               'the history-level theorems of DESIGN.md section 4 are not yet proved, so nothing is claimed in MANIFEST.json.',
+ 'partial_gap': 'only one-step theorems are proved; the invariant / history-level theorems planned in DESIGN.md section 4 (C01_who_may_transmit, '
+                'C01_sync_pause, C01_claim_stagger, C01_compose) are open',
+ 'design_ref': 'DESIGN.md section 4, C01',
+ 'assumptions': ['single station; the multi-station composition is not covered']}
+
+PROPS["C05"] = {'claimed': False,
+ 'coq': 'Properties/C05.v',
+ 'domains': ['fdl'],
+ 'nontrivial': ['tx:', 'tag:ht:accept', 'tag:reply:', 'tag:gap:reply', 'tag:gap:no-response', 'tag:check:', 'tag:lt:reply'],
+ 'rule': 'cases = corpus (F1 F2 F3 F12 witnesses, API / parameter edge cases) + generated histories: station alone with responders, environment '
+         'rings of 1..3 masters that admit the station, hand-made token traffic (predecessor / stranger / own / invalid addresses), adversarial '
+         'injections (tokens, status requests / replies, SC, data replies, garbage, truncated and corrupted frames, two telegrams at once) at all '
+         'poll timings incl. periods above Tslot/4, PHY busy answers exact / never / late / random, set_offline / set_online in every state, 0..3 '
+         'scripted applications; non-trivial = polls that transmit, accept a token, deliver a reply / time-out or run a GAP branch',
+ 'trusted_base': ['hand model coq/Model/Fdl.v of src/fdl/active.rs (all of it: states, legality assertions, poll_inner branch for branch), on top of '
+                  "Telegram.v / Phy.v / TokenRing.v / Params.v; tied by differential execution poll by poll on this run's histories (all outputs, "
+                  'public getters and the private state through the verif-hooks fingerprint)',
+                  'gen/tr_fdl.py: transition legality tables, have_token / is_in_ring sets, dispatch, retry table and numeric constants regenerated '
+                  'from active.rs',
+                  'harness PHY / scripted applications / scripted environment of harness/src/fdl.rs; monitors of coq/Model/FdlOracle.v (extracted) '
+                  "run on the implementation's transcript"],
+ 'technique': 'Coq one-step theorems about the Gallina model of the FDL active station + differential correspondence poll by poll + executable '
+              "monitor of the property on the implementation's transcript",
+ 'level_text': 'One-step theorems: GAP cursor total and never the own address (F1), offline and busy polls total. Model and implementation agree on '
+               'PANIC / no PANIC on every explored history (debug assertions, overflow checks, formatting logger); the implementation shows no '
+               'panic.',
+ 'level_note': 'Trusted: Coq kernel, the regex translators, OCaml extraction + driver, Rust harness. The hand model is validated, not verified, '
+               'against active.rs (differential execution on the explored histories). The theorems proved so far are one-step facts about the model; '
+               'the history-level theorems of DESIGN.md section 4 are not yet proved, so nothing is claimed in MANIFEST.json.',
+ 'partial_gap': 'only one-step theorems are proved; the invariant / history-level theorems planned in DESIGN.md section 4 (C05_no_panic under the '
+                'representation invariant) are open',
+ 'design_ref': 'DESIGN.md section 4, C05',
+ 'assumptions': ['builder-valid parameters; set_passive (documented todo!()) and constructor assertions excluded (DESIGN 4.0)']}
+
+PROPS["C06"] = {'claimed': False,
+ 'coq': 'Properties/C06.v',
+ 'domains': ['fdl'],
+ 'nontrivial': ['tx:', 'tag:ht:accept', 'tag:reply:', 'tag:gap:reply', 'tag:gap:no-response', 'tag:check:', 'tag:lt:reply'],
+ 'rule': 'cases = corpus (F1 F2 F3 F12 witnesses, API / parameter edge cases) + generated histories: station alone with responders, environment '
+         'rings of 1..3 masters that admit the station, hand-made token traffic (predecessor / stranger / own / invalid addresses), adversarial '
+         'injections (tokens, status requests / replies, SC, data replies, garbage, truncated and corrupted frames, two telegrams at once) at all '
+         'poll timings incl. periods above Tslot/4, PHY busy answers exact / never / late / random, set_offline / set_online in every state, 0..3 '
+         'scripted applications; non-trivial = polls that transmit, accept a token, deliver a reply / time-out or run a GAP branch',
+ 'trusted_base': ['hand model coq/Model/Fdl.v of src/fdl/active.rs (all of it: states, legality assertions, poll_inner branch for branch), on top of '
+                  "Telegram.v / Phy.v / TokenRing.v / Params.v; tied by differential execution poll by poll on this run's histories (all outputs, "
+                  'public getters and the private state through the verif-hooks fingerprint)',
+                  'gen/tr_fdl.py: transition legality tables, have_token / is_in_ring sets, dispatch, retry table and numeric constants regenerated '
+                  'from active.rs',
+                  'harness PHY / scripted applications / scripted environment of harness/src/fdl.rs; monitors of coq/Model/FdlOracle.v (extracted) '
+                  "run on the implementation's transcript"],
+ 'technique': 'Coq one-step theorems about the Gallina model of the FDL active station + differential correspondence poll by poll + executable '
+              "monitor of the property on the implementation's transcript",
+ 'level_text': "One-step theorem: silence for the station's token-lost time-out makes the next poll transmit the claim token. The monitor checks it "
+               'on transcripts.',
+ 'level_note': 'Trusted: Coq kernel, the regex translators, OCaml extraction + driver, Rust harness. The hand model is validated, not verified, '
+               'against active.rs (differential execution on the explored histories). The theorems proved so far are one-step facts about the model; '
+               'the history-level theorems of DESIGN.md section 4 are not yet proved, so nothing is claimed in MANIFEST.json.',
+ 'partial_gap': 'only one-step theorems are proved; the invariant / history-level theorems planned in DESIGN.md section 4 (C06_backoff, '
+                'C06_collision_leaves, N-station recovery) are open',
+ 'design_ref': 'DESIGN.md section 4, C06',
+ 'assumptions': ['single station']}
+
+PROPS["C11"] = {'claimed': False,
+ 'coq': 'Properties/C11.v',
+ 'domains': ['fdl'],
+ 'nontrivial': ['tx:', 'tag:ht:accept', 'tag:reply:', 'tag:gap:reply', 'tag:gap:no-response', 'tag:check:', 'tag:lt:reply'],
+ 'rule': 'cases = corpus (F1 F2 F3 F12 witnesses, API / parameter edge cases) + generated histories: station alone with responders, environment '
+         'rings of 1..3 masters that admit the station, hand-made token traffic (predecessor / stranger / own / invalid addresses), adversarial '
+         'injections (tokens, status requests / replies, SC, data replies, garbage, truncated and corrupted frames, two telegrams at once) at all '
+         'poll timings incl. periods above Tslot/4, PHY busy answers exact / never / late / random, set_offline / set_online in every state, 0..3 '
+         'scripted applications; non-trivial = polls that transmit, accept a token, deliver a reply / time-out or run a GAP branch',
+ 'trusted_base': ['hand model coq/Model/Fdl.v of src/fdl/active.rs (all of it: states, legality assertions, poll_inner branch for branch), on top of '
+                  "Telegram.v / Phy.v / TokenRing.v / Params.v; tied by differential execution poll by poll on this run's histories (all outputs, "
+                  'public getters and the private state through the verif-hooks fingerprint)',
+                  'gen/tr_fdl.py: transition legality tables, have_token / is_in_ring sets, dispatch, retry table and numeric constants regenerated '
+                  'from active.rs',
+                  'harness PHY / scripted applications / scripted environment of harness/src/fdl.rs; monitors of coq/Model/FdlOracle.v (extracted) '
+                  "run on the implementation's transcript"],
+ 'technique': 'Coq one-step theorems about the Gallina model of the FDL active station + differential correspondence poll by poll + executable '
+              "monitor of the property on the implementation's transcript",
+ 'level_text': 'One-step theorems about handle_telegram: acceptance iff predecessor or pending second offer, own address never accepted, non-last '
+               'tokens only witnessed. The monitor checks acceptance, retry timing and count, removal and the heard-successor rule on transcripts.',
+ 'level_note': 'Trusted: Coq kernel, the regex translators, OCaml extraction + driver, Rust harness. The hand model is validated, not verified, '
+               'against active.rs (differential execution on the explored histories). The theorems proved so far are one-step facts about the model; '
+               'the history-level theorems of DESIGN.md section 4 are not yet proved, so nothing is claimed in MANIFEST.json.',
+ 'partial_gap': 'only one-step theorems are proved; the invariant / history-level theorems planned in DESIGN.md section 4 (C11_listen_never_accepts '
+                '(whole poll), C11_supervise, C11_retry_discipline, C11_heard_not_removed) are open',
+ 'design_ref': 'DESIGN.md section 4, C11',
+ 'assumptions': ['single station']}
+
+PROPS["C12"] = {'claimed': False,
+ 'coq': 'Properties/C12.v',
+ 'domains': ['fdl'],
+ 'nontrivial': ['tx:', 'tag:ht:accept', 'tag:reply:', 'tag:gap:reply', 'tag:gap:no-response', 'tag:check:', 'tag:lt:reply'],
+ 'rule': 'cases = corpus (F1 F2 F3 F12 witnesses, API / parameter edge cases) + generated histories: station alone with responders, environment '
+         'rings of 1..3 masters that admit the station, hand-made token traffic (predecessor / stranger / own / invalid addresses), adversarial '
+         'injections (tokens, status requests / replies, SC, data replies, garbage, truncated and corrupted frames, two telegrams at once) at all '
+         'poll timings incl. periods above Tslot/4, PHY busy answers exact / never / late / random, set_offline / set_online in every state, 0..3 '
+         'scripted applications; non-trivial = polls that transmit, accept a token, deliver a reply / time-out or run a GAP branch',
+ 'trusted_base': ['hand model coq/Model/Fdl.v of src/fdl/active.rs (all of it: states, legality assertions, poll_inner branch for branch), on top of '
+                  "Telegram.v / Phy.v / TokenRing.v / Params.v; tied by differential execution poll by poll on this run's histories (all outputs, "
+                  'public getters and the private state through the verif-hooks fingerprint)',
+                  'gen/tr_fdl.py: transition legality tables, have_token / is_in_ring sets, dispatch, retry table and numeric constants regenerated '
+                  'from active.rs',
+                  'harness PHY / scripted applications / scripted environment of harness/src/fdl.rs; monitors of coq/Model/FdlOracle.v (extracted) '
+                  "run on the implementation's transcript"],
+ 'technique': 'Coq one-step theorems about the Gallina model of the FDL active station + differential correspondence poll by poll + executable '
+              "monitor of the property on the implementation's transcript",
+ 'level_text': 'One-step theorems: the next GAP address is strictly inside (TS, NS) cyclically, below HSA, never TS, for all triples (F1 fixed). The '
+               'monitor checks GAP poll addresses, one poll per visit and the truthfulness of status replies on transcripts.',
+ 'level_note': 'Trusted: Coq kernel, the regex translators, OCaml extraction + driver, Rust harness. The hand model is validated, not verified, '
+               'against active.rs (differential execution on the explored histories). The theorems proved so far are one-step facts about the model; '
+               'the history-level theorems of DESIGN.md section 4 are not yet proved, so nothing is claimed in MANIFEST.json.',
+ 'partial_gap': 'only one-step theorems are proved; the invariant / history-level theorems planned in DESIGN.md section 4 (C12_poll_in_gap (whole '
+                'poll), C12_one_per_visit, C12_sweep_bound, C12_found_becomes_successor, C12_status_reply_truth) are open',
+ 'design_ref': 'DESIGN.md section 4, C12',
+ 'assumptions': ['single station']}
+
+PROPS["C13"] = {'claimed': False,
+ 'coq': 'Properties/C13.v',
+ 'domains': ['fdl'],
+ 'nontrivial': ['tx:', 'tag:ht:accept', 'tag:reply:', 'tag:gap:reply', 'tag:gap:no-response', 'tag:check:', 'tag:lt:reply'],
+ 'rule': 'cases = corpus (F1 F2 F3 F12 witnesses, API / parameter edge cases) + generated histories: station alone with responders, environment '
+         'rings of 1..3 masters that admit the station, hand-made token traffic (predecessor / stranger / own / invalid addresses), adversarial '
+         'injections (tokens, status requests / replies, SC, data replies, garbage, truncated and corrupted frames, two telegrams at once) at all '
+         'poll timings incl. periods above Tslot/4, PHY busy answers exact / never / late / random, set_offline / set_online in every state, 0..3 '
+         'scripted applications; non-trivial = polls that transmit, accept a token, deliver a reply / time-out or run a GAP branch',
+ 'trusted_base': ['hand model coq/Model/Fdl.v of src/fdl/active.rs (all of it: states, legality assertions, poll_inner branch for branch), on top of '
+                  "Telegram.v / Phy.v / TokenRing.v / Params.v; tied by differential execution poll by poll on this run's histories (all outputs, "
+                  'public getters and the private state through the verif-hooks fingerprint)',
+                  'gen/tr_fdl.py: transition legality tables, have_token / is_in_ring sets, dispatch, retry table and numeric constants regenerated '
+                  'from active.rs',
+                  'harness PHY / scripted applications / scripted environment of harness/src/fdl.rs; monitors of coq/Model/FdlOracle.v (extracted) '
+                  "run on the implementation's transcript"],
+ 'technique': 'Coq one-step theorems about the Gallina model of the FDL active station + differential correspondence poll by poll + executable '
+              "monitor of the property on the implementation's transcript",
+ 'level_text': 'One-step theorem: after the hold time (and the guaranteed cycle) no application is asked and the token is passed. The monitor checks '
+               'the hold-time rule on call logs.',
+ 'level_note': 'Trusted: Coq kernel, the regex translators, OCaml extraction + driver, Rust harness. The hand model is validated, not verified, '
+               'against active.rs (differential execution on the explored histories). The theorems proved so far are one-step facts about the model; '
+               'the history-level theorems of DESIGN.md section 4 are not yet proved, so nothing is claimed in MANIFEST.json.',
+ 'partial_gap': 'only one-step theorems are proved; the invariant / history-level theorems planned in DESIGN.md section 4 (C13_hold_rule (only-if '
+                'half), C13_rotation_bound) are open',
+ 'design_ref': 'DESIGN.md section 4, C13',
+ 'assumptions': ['single station']}
+
+PROPS["C15"] = {'claimed': False,
+ 'coq': 'Properties/C15.v',
+ 'domains': ['fdl'],
+ 'nontrivial': ['tx:', 'tag:ht:accept', 'tag:reply:', 'tag:gap:reply', 'tag:gap:no-response', 'tag:check:', 'tag:lt:reply'],
+ 'rule': 'cases = corpus (F1 F2 F3 F12 witnesses, API / parameter edge cases) + generated histories: station alone with responders, environment '
+         'rings of 1..3 masters that admit the station, hand-made token traffic (predecessor / stranger / own / invalid addresses), adversarial '
+         'injections (tokens, status requests / replies, SC, data replies, garbage, truncated and corrupted frames, two telegrams at once) at all '
+         'poll timings incl. periods above Tslot/4, PHY busy answers exact / never / late / random, set_offline / set_online in every state, 0..3 '
+         'scripted applications; non-trivial = polls that transmit, accept a token, deliver a reply / time-out or run a GAP branch',
+ 'trusted_base': ['hand model coq/Model/Fdl.v of src/fdl/active.rs (all of it: states, legality assertions, poll_inner branch for branch), on top of '
+                  "Telegram.v / Phy.v / TokenRing.v / Params.v; tied by differential execution poll by poll on this run's histories (all outputs, "
+                  'public getters and the private state through the verif-hooks fingerprint)',
+                  'gen/tr_fdl.py: transition legality tables, have_token / is_in_ring sets, dispatch, retry table and numeric constants regenerated '
+                  'from active.rs',
+                  'harness PHY / scripted applications / scripted environment of harness/src/fdl.rs; monitors of coq/Model/FdlOracle.v (extracted) '
+                  "run on the implementation's transcript"],
+ 'technique': 'Coq one-step theorems about the Gallina model of the FDL active station + differential correspondence poll by poll + executable '
+              "monitor of the property on the implementation's transcript",
+ 'level_text': "One-step theorem: the reply admission filter is exactly 'SC or response from the addressed station to us'. The monitor checks the "
+               'application contract (token held, one outstanding request, matched reply or time-out, round robin) on call logs.',
+ 'level_note': 'Trusted: Coq kernel, the regex translators, OCaml extraction + driver, Rust harness. The hand model is validated, not verified, '
+               'against active.rs (differential execution on the explored histories). The theorems proved so far are one-step facts about the model; '
+               'the history-level theorems of DESIGN.md section 4 are not yet proved, so nothing is claimed in MANIFEST.json.',
+ 'partial_gap': 'only one-step theorems are proved; the invariant / history-level theorems planned in DESIGN.md section 4 (C15_contract, '
+                'C15_routing, C15_round_robin, C15_zero_apps) are open',
+ 'design_ref': 'DESIGN.md section 4, C15',
+ 'assumptions': ['0..3 scripted applications']}
